@@ -3,6 +3,7 @@ package validators
 import (
 	"fmt"
 
+	"github.com/gopher-fleece/gleece/v2/common"
 	"github.com/gopher-fleece/gleece/v2/core/annotations"
 	"github.com/gopher-fleece/gleece/v2/core/arbitrators"
 	"github.com/gopher-fleece/gleece/v2/core/metadata"
@@ -63,13 +64,21 @@ func (v *ControllerValidator) validateAnnotationPresence() []diagnostics.Resolve
 	counts := v.controller.Struct.Annotations.AttributeCounts()
 
 	if counts[annotations.GleeceAnnotationTag] <= 0 {
+		fileName, diagRange := v.holder.FileName(), v.holder.Range()
+		if fileName == "" && v.controller.Struct.Node != nil && v.packagesFacade != nil {
+			// A controller without any comment has no comment block to point at - point at its declaration instead
+			fSet := v.packagesFacade.FSet()
+			fileName = fSet.Position(v.controller.Struct.Node.Pos()).Filename
+			diagRange = common.ResolveNodeRange(fSet, v.controller.Struct.Node)
+		}
+
 		diagnosticsList = append(
 			diagnosticsList,
 			diagnostics.NewWarningDiagnostic(
-				v.holder.FileName(),
+				fileName,
 				fmt.Sprintf("Controller '%s' is lacking a @Tag annotation", v.controller.Struct.Name),
 				diagnostics.DiagControllerLevelMissingTag,
-				v.holder.Range(),
+				diagRange,
 			))
 	}
 
